@@ -176,11 +176,12 @@ impl<'a> TryFrom<&'a str> for ExtInf<'a> {
         let mut input = tag(input, Self::PREFIX)?.splitn(2, ',');
 
         let duration = input.next().unwrap();
-        let duration = Duration::from_secs_f64(
+        let duration = Duration::try_from_secs_f64(
             duration
                 .parse()
                 .map_err(|e| Error::parse_float(duration, e))?,
-        );
+        )
+        .map_err(Error::custom)?;
 
         let title = input
             .next()
